@@ -686,7 +686,7 @@ func exec(c *core.Ctx, cs Case) {
 				sizeHits[sz]++
 				full = true
 			}
-			if work > 600000 { // bound on the probing work of one case
+			if work > 300000 { // bound on the probing work of one case
 				full = false
 			}
 			// cheap checks after every mutating op
@@ -861,6 +861,27 @@ func oneTree(pre, in, post []int, budget *int) int {
 	return 0
 }
 
+// nodeFields caches the field indices of a node struct type (FieldByName is slow).
+type nodeIdx struct{ value, left, right int }
+
+var nodeIdxCache = map[reflect.Type]nodeIdx{}
+
+func nodeFields(t reflect.Type) nodeIdx {
+	if x, ok := nodeIdxCache[t]; ok {
+		return x
+	}
+	var x nodeIdx
+	for name, dst := range map[string]*int{"value": &x.value, "left": &x.left, "right": &x.right} {
+		f, ok := t.FieldByName(name)
+		if !ok {
+			panic("no field " + name)
+		}
+		*dst = f.Index[0]
+	}
+	nodeIdxCache[t] = x
+	return x
+}
+
 // disjointTrees walks the node pointers of every handle by reflection: no node may be reached twice,
 // neither inside one handle (cycle / shared subtree) nor from two handles (a clone sharing nodes).
 func disjointTrees(c *core.Ctx, ts avlh.Trees, n int) (msg string) {
@@ -887,7 +908,9 @@ func disjointTrees(c *core.Ctx, ts avlh.Trees, n int) (msg string) {
 				return fmt.Sprintf("handles %d and %d share a node", o, g)
 			}
 			owner[p] = g
-			stack = append(stack, cur.Elem().FieldByName("left"), cur.Elem().FieldByName("right"))
+			n := cur.Elem()
+			ix := nodeFields(n.Type())
+			stack = append(stack, n.Field(ix.left), n.Field(ix.right))
 		}
 	}
 	return ""
@@ -905,14 +928,15 @@ func removesTwoChildrenNode(tree any, v int) (two bool, depth int) {
 	cur := reflect.ValueOf(tree).Elem().FieldByName("root")
 	for !cur.IsNil() {
 		n := cur.Elem()
-		val := n.FieldByName("value")
+		ix := nodeFields(n.Type())
+		val := n.Field(ix.value)
 		var x int
 		if val.Kind() == reflect.Struct {
 			x = int(val.Field(0).Int())<<2 | int(val.Field(1).Int())
 		} else {
 			x = int(val.Int())
 		}
-		l, r := n.FieldByName("left"), n.FieldByName("right")
+		l, r := n.Field(ix.left), n.Field(ix.right)
 		switch {
 		case x == v:
 			return !l.IsNil() && !r.IsNil(), depth
